@@ -282,6 +282,10 @@ class MetadataGenerator:
                     return Null
 
             meta_type = DUnion(*types)
+            if str in meta_type.types and any(t in self.str_types_registry for t in meta_type.types):
+                # Literals of different members (e.g. of an Optional member) are merged only now and may overflow into str:
+                # str absorbs the string pseudo-types
+                meta_type = DUnion(*(t for t in meta_type.types if t not in self.str_types_registry))
             if len(meta_type.types) == 1:
                 meta_type = meta_type.types[0]
 
